@@ -211,6 +211,11 @@ def rule_ms(ctx: Ctx):
         r3.ob(first is not None and _key0(first.index) and _marker_code(first.value) == "NOTSET", lambda: _f(
             "MS-3", "add_key{notset}", mm, fn,
             "add_key must first mark index key[0] as NOTSET (a re-added key reads as fresh); first marker write: %s" % (first.brief() if first else "none"), trace_of(p)))
+        # the key itself is recorded with the slot (iterate reports it, also for a slot that was never written)
+        kws = [e for e in p.trace if e.k == "substore" and _arr(e.base) == "keys" and _key0(e.index)]
+        r3.ob(bool(kws) and all(e.value == KEY for e in kws), lambda: _f(
+            "MS-3", "add_key{key}", mm, fn, "add_key must record the key at index key[0] of the key table (iterate reports the keys of the live slots); "
+            "it writes %s" % [e.brief() for e in kws], trace_of(p)))
         # default value / mapper dict are written through set() after the NOTSET mark
         later = writes[1:]
         for w in later:
